@@ -220,3 +220,6 @@ func (s *Sched) Finish(maxSteps int) bool {
 	}
 	return false
 }
+
+// Cur is the thread being stepped (nil outside Step); for yield-hook wrappers.
+func (s *Sched) Cur() *Thread { return s.cur }
